@@ -14,3 +14,4 @@ def run(ck):
     geometry.r1_clip_sources(ck, P)            # C03-R1: a clip that was reset must not clip (have_clip_region is the current property, the rectangles are stale)
     region.r5_4_success_writes_result(ck, P)   # C05-R4: a clip setter that reports success has replaced the clip
     region.r5_5_copy_sets_count(ck, P)
+    image.r_hook_refreshes_unconditionally(ck, P, 'C14-R8')
